@@ -149,6 +149,7 @@ func init() {
 // initial_headers / headers policy (C17), three sessions per server.
 func famSesHs(t *testing.T, r *Rec) {
 	hsSharedInitial(t, r)
+	hsOverlapping(t, r)
 	type cfg struct {
 		I, T, max   int
 		transports  string
@@ -361,6 +362,47 @@ func famSesHs(t *testing.T, r *Rec) {
 
 // hsSharedInitial: the configured initial packet given as a plain seekable reader, two sessions whose
 // handshakes both precede their first polls: each receives its own copy (C06).
+// hsOverlapping: a second handshake arrives before the writer of the first one has put the open packet on the
+// wire: each client still reads its own session's id (C06).
+func hsOverlapping(t *testing.T, r *Rec) {
+	for _, tr := range []string{"polling", "websocket"} {
+		lines := []string{"ses cfg 25000 20000 1000 100000 default 1 0 - 0 - hdr", fmt.Sprintf("ses+ hs %s 4 0 -", tr), fmt.Sprintf("ses+ hs %s 4 0 -", tr), "ses obs"}
+		outs := sesRun(t, lines)
+		r.scenarios++
+		for i, l := range lines {
+			r.Op(l, outs[i])
+		}
+		r.Cover("hs/overlapping/" + tr)
+		o := parseObs(outs[3])
+		var sids []string
+		for _, rs := range o.resps {
+			sids = append(sids, openSid(unhx(rs.body)))
+		}
+		for c := 0; c < 2; c++ {
+			for _, fr := range o.frames[c] {
+				sids = append(sids, openSid(fr.data))
+			}
+		}
+		if len(sids) != 2 || sids[0] != "sid0" || sids[1] != "sid1" {
+			r.Violate("C06", "C06/open-packet/sid-of-another-session/"+tr, fmt.Sprintf("two overlapping handshakes: the open packets carry the ids %v, want [sid0 sid1] (sid<k> = the id of the k-th session)", sids), lines)
+		}
+	}
+}
+
+// openSid extracts the sid field of an open packet (the harness shows the id of the k-th session as sid<k>).
+func openSid(b []byte) string {
+	s := string(b)
+	i := strings.Index(s, `"sid":"`)
+	if i < 0 {
+		return "?"
+	}
+	s = s[i+7:]
+	if j := strings.IndexByte(s, '"'); j >= 0 {
+		return s[:j]
+	}
+	return "?"
+}
+
 func hsSharedInitial(t *testing.T, r *Rec) {
 	for _, kind := range []string{"r"} {
 		lines := []string{fmt.Sprintf("ses cfg 25000 20000 1000 100000 polling 1 0 %s%s 0 - hdr", kind, hx([]byte("hello"))),
@@ -621,6 +663,16 @@ func hbExtra(t *testing.T, r *Rec) {
 		l = hs(3)
 		l = append(l, "ses adv 100", msg(3), "ses adv 499", "ses adv 1", "ses adv 5")
 		scens = append(scens, scen{"v3-message-does-not-move-deadline", 3, l, []string{"600:close:ping_timeout"}})
+		if tr == "polling" {
+			// revision 3 after a completed upgrade: the deadline of a ping sent on the new transport still holds
+			l = hs(3)
+			l = append(l, "ses ws s0 3 0", "ses frame 0 t 3270726f6265", "ses frame 0 t 35", "ses adv 100", "ses frame 0 t 32", "ses adv 599", "ses adv 1", "ses adv 5")
+			scens = append(scens, scen{"v3-ping-after-upgrade-then-silence", 3, l, []string{"100:heartbeat", "700:close:ping_timeout"}})
+			// revision 4 after a completed upgrade: pings go on, an unanswered one closes the session
+			l = hs(4)
+			l = append(l, "ses ws s0 4 0", "ses frame 0 t 3270726f6265", "ses frame 0 t 35", "ses adv 400", "ses frame 0 t 33", "ses adv 400", "ses adv 199", "ses adv 1", "ses adv 5")
+			scens = append(scens, scen{"v4-heartbeat-after-upgrade", 4, l, []string{"400:ping", "400:heartbeat", "800:ping", "1000:close:ping_timeout"}})
+		}
 		for _, sc := range scens {
 			outs := sesRun(t, sc.lines)
 			r.scenarios++
@@ -719,6 +771,9 @@ func famSesHostile(t *testing.T, r *Rec) {
 		add(fmt.Sprintf("limit/ws-frame-after-upgrade/size=%d", sz), "C10", "ses hs polling 4 0 -", "ses ws s1 4 0", "ses frame 0 t 3270726f6265",
 			"ses adv 100", "ses poll s1", "ses frame 0 t 35", "ses frame 0 t "+hx(body), "ses frame 0 t 346f6b")
 	}
+	// a declared length within the limit, a body that yields more (e.g. an inflating middleware in front of the engine)
+	add("limit/post/under-declared", "C10", "ses hs polling 4 0 -", "ses post s1 t d50 "+hx(append([]byte("4"), bytes_repeat('u', 4999)...)))
+	add("limit/multi/under-declared", "C10", "ses hs polling 4 0 -", "ses post s1 t d90 "+hx([]byte("4"+string(bytes_repeat('a', 60))+"\x1e4"+string(bytes_repeat('b', 60))+"\x1e4"+string(bytes_repeat('c', 60)))))
 	add("limit/post/multi-packet-above", "C10", "ses hs polling 4 0 -", "ses post s1 t 1 "+hx([]byte("4"+string(bytes_repeat('a', 60))+"\x1e4"+string(bytes_repeat('b', 60)))))
 
 	for _, sc := range scens {
